@@ -26,6 +26,8 @@ func checkC19(c *Ctx, r *Report) {
 	r.rule("C19.R4.canonical-fold", 1, "CanonicalName lower-cases exactly A-Z, octet by octet, and nothing else")
 	foldRangeRule(c, r, "C19.R4.canonical-fold", "CanonicalName", "the canonical form of a name differs from the name in more than the case of its ASCII letters (or leaves a capital in place)")
 	c19Canonical(c, r)
+	prevStep(c, r, "C19.R1.prev-step")
+	addOriginGate(c, r, "C19.R4.addorigin-gate")
 }
 
 // c19Scan: R1.
